@@ -92,13 +92,17 @@ class Steps:
             return name + '.lib'
         return name
 
-    def fresh_name(self, kind):
+    def fresh_name(self, kind, in_sub=False):
         rng = self.rng
         for _ in range(50):
             base = rng.choice(G.NAMES[:16])
             if rng.random() < 0.08:
                 base = 'lib' + base
-            if rng.random() < 0.2:
+            if in_sub:
+                # written as `base` inside subdir/build.bfg: the same short
+                # name may also be used by the parent script
+                base = 'subdir/' + base
+            elif rng.random() < 0.2:
                 base = rng.choice(['sub', 'nested/dir']) + '/' + base
             if self.output_key(kind, base) not in self.used_outputs() and \
                not any(self.output_key(kind, base).startswith(o + '/') or
@@ -112,9 +116,10 @@ class Steps:
         kind = rng.choice(self.KINDS)
         libs = [s['id'] for s in self.steps
                 if s['kind'] in ('shared_library', 'static_library',
-                                 'library')]
+                                 'library') and not s.get('sub')]
         linked = [s['id'] for s in self.steps
-                  if s['kind'] not in ('command', 'alias')]
+                  if s['kind'] not in ('command', 'alias') and
+                  not s.get('sub')]
         deps = []
         if kind in ('executable', 'shared_library') and libs:
             deps = rng.sample(libs, rng.randint(0, min(2, len(libs))))
@@ -124,8 +129,13 @@ class Steps:
                                                   min(2, len(linked))))
         elif kind == 'alias':
             kind = 'executable'
+        # (command/alias names are global, not re-rooted: only link steps
+        # can repeat a name between a script and its submodule)
+        in_sub = kind in ('executable', 'static_library') and \
+            not deps and rng.random() < 0.3
         s = {'id': self.next_id, 'kind': kind,
-             'name': self.fresh_name(kind), 'deps': deps}
+             'name': self.fresh_name(kind, in_sub), 'deps': deps,
+             'sub': in_sub}
         self.next_id += 1
         self.steps.append(s)
         return s
@@ -165,7 +175,7 @@ class Steps:
         if not self.steps:
             return None
         s = self.rng.choice(self.steps)
-        s['name'] = self.fresh_name(s['kind'])
+        s['name'] = self.fresh_name(s['kind'], s.get('sub', False))
         return s
 
     def reorder(self):
@@ -184,8 +194,28 @@ class Steps:
         return s
 
     def render(self, broken_at=None):
+        main = self.render_script([s for s in self.steps
+                                   if not s.get('sub')], broken_at, True)
+        subs = [s for s in self.steps if s.get('sub')]
+        if not subs:
+            return main
+        sub_lines = ['# generated by bfgsim (submodule)']
+        for s in subs:
+            v = 's{}'.format(s['id'])
+            short = s['name'][len('subdir/'):]
+            if s['kind'] == 'command':
+                sub_lines.append("{} = command({!r}, cmd=['echo', 'x'])"
+                                 .format(v, short))
+            else:
+                sub_lines.append("{} = {}({!r}, files=['../main.c'])".format(
+                    v, s['kind'], short))
+        main = main.rstrip('\n') + "\nsubexp = submodule('subdir')\n"
+        return {'build.bfg': main,
+                'subdir/build.bfg': '\n'.join(sub_lines) + '\n'}
+
+    def render_script(self, steps, broken_at, with_default):
         lines = ['# generated by bfgsim', "project('solution', version='1.0')"]
-        for n, s in enumerate(self.steps):
+        for n, s in enumerate(steps):
             if broken_at is not None and n == broken_at:
                 # not representable in MSBuild: fails inside the writer,
                 # after the projects of the earlier steps were created
@@ -211,7 +241,7 @@ class Steps:
                 # same source file
                 lines.append("{} = copy_file({!r}, 'main.c')".format(
                     v, s['name'] + '.txt'))
-        ids = {s['id'] for s in self.steps}
+        ids = {s['id'] for s in steps}
         dflt = [d for d in (self.default if isinstance(self.default, list)
                             else [self.default]) if d in ids]
         if dflt:
@@ -320,7 +350,15 @@ def execute(root, cfg, scripts):
             may_fail = False
             if isinstance(text, (list, tuple)):
                 text, may_fail = text[0], bool(text[1])
-            w.write('build.bfg', text)
+            if isinstance(text, dict):
+                for rel, t in sorted(text.items()):
+                    w.write(rel, t)
+                text = '\n'.join(
+                    t if rel == 'build.bfg' else
+                    re.sub(r"^(s\d+ = \w+\()'", r"\1'subdir/", t, flags=re.M)
+                    for rel, t in sorted(text.items()))
+            else:
+                w.write('build.bfg', text)
             if i == 0:
                 r = R.run_bfg(w, ['configure', w.build, '--backend=msbuild',
                                   '--no-resolve-packages', '--prefix=' +
@@ -384,7 +422,9 @@ def run_case(seed, root, params=None):
             elif k == 'reorder':
                 st.reorder()
             elif k == 'default' and st.steps:
-                linked = [x['id'] for x in st.steps]
+                linked = [x['id'] for x in st.steps if not x.get('sub')]
+                if not linked:
+                    continue
                 if len(linked) > 1 and rng.random() < 0.5:
                     st.default = rng.sample(linked, rng.randint(2, min(
                         3, len(linked))))
@@ -435,7 +475,10 @@ EVIDENCE = {
 
 
 def _text(s):
-    return s[0] if isinstance(s, (list, tuple)) else s
+    s = s[0] if isinstance(s, (list, tuple)) else s
+    if isinstance(s, dict):
+        return '\n'.join(s[k] for k in sorted(s))
+    return s
 
 
 def summarise(case):
